@@ -261,7 +261,7 @@ pub fn generate_c18(rng: &mut Rng) -> Scenario {
     let mut world = World::default();
     // C18 assumes an error-free compile: clean and warning-only programs
     let templates = catalogue::by_class(true, true, false);
-    let program = catalogue::instantiate(*rng.pick(&templates), rng);
+    let program = if rng.chance(1, 4) { catalogue::random_program(rng, 0) } else { catalogue::instantiate(*rng.pick(&templates), rng) };
     let mut argv = place_program(rng, &mut world, &program, true);
     let hint = request_size_hint(&program);
     let small_caps = !fault_free && hint < 3000;
@@ -810,7 +810,13 @@ pub fn generate_c07(rng: &mut Rng) -> Scenario {
     };
     let io_error = kind >= 8;
     let templates: Vec<&'static str> = catalogue::by_class(want_clean, want_warn, want_err).into_iter().filter(|t| *t != "err-module-vs-definition").collect();
-    let program = catalogue::instantiate(*rng.pick(&templates), rng);
+    let program = if rng.chance(1, 4) {
+        // a seeded random program; an injected error (cycle / redefinition / unresolved type) when an error is wanted
+        let inject = if want_err { 1 + rng.below(3) as u8 } else { 0 };
+        catalogue::random_program(rng, inject)
+    } else {
+        catalogue::instantiate(*rng.pick(&templates), rng)
+    };
     let mut argv = place_program(rng, &mut world, &program, true);
     let mut unreadable = Vec::new();
     let mut expected_codes: Vec<String> = program.codes.iter().map(|c| c.to_string()).collect();
